@@ -123,7 +123,9 @@ func c05Exec(x *engine.Ctx, cc any) {
 			x.Violation(fmt.Sprintf("C05/key/configured=%s got=%s", orOmitted(c.KeyAlg), got), fmt.Sprintf("keyAlgorithm %s but the generated private key is %s", orOmitted(c.KeyAlg), got))
 		}
 	}
-	if pk, err := a.Cert.PublicKey(); err == nil && !a.Key.SamePublic(pk) {
+	if pk, err := a.Cert.PublicKey(); err != nil {
+		x.Violation("C05/spki/undecodable gen="+fmt.Sprint(c.Gen), fmt.Sprintf("SubjectPublicKeyInfo of the certificate does not decode: %v", err))
+	} else if !a.Key.SamePublic(pk) {
 		x.Violation("C05/spki/not-the-private-keys-public-key", fmt.Sprintf("certificate carries a %s key that does not belong to the stored %s private key", pk.Describe(), a.Key.Describe()))
 	}
 	x.Outcome(fmt.Sprintf("ok %s gen=%v", c.Role, c.Gen))
